@@ -76,6 +76,9 @@ pub enum Op {
     /// public split_at + merge (seam without any hook)
     ManualInsert { slot: usize, pos: usize, value: u64, priority: u32 },
     RemoveAt { slot: usize, pos: usize },
+    /// the item returned by slot.remove_at(pos) is put back as it came: how 0 = dst.insert_at(dst_pos),
+    /// 1 = dst = merge(dst, from_item(item)), 2 = dst = merge(from_item(item), dst)
+    MoveItem { slot: usize, pos: usize, dst: usize, dst_pos: usize, how: u8 },
     /// (l, r) = src.split_at(pos); src = l; dst = merge(r, dst); with dst == src: src = merge(r, l)
     SplitMove { src: usize, pos: usize, dst: usize, node_api: bool },
     /// same through split_by; `threshold` asks for a value-threshold predicate when the
@@ -99,6 +102,7 @@ impl Op {
             Op::InsertAt { .. } => "insert_at",
             Op::ManualInsert { .. } => "manual_insert",
             Op::RemoveAt { .. } => "remove_at",
+            Op::MoveItem { .. } => "move_item",
             Op::SplitMove { .. } => "split_at",
             Op::SplitByMove { .. } => "split_by",
             Op::Merge { .. } => "merge",
@@ -117,6 +121,7 @@ impl Op {
             Op::InsertAt { slot, pos, value } => o.with("slot", Json::u(*slot)).with("pos", Json::u(*pos)).with("value", Json::n(*value)),
             Op::ManualInsert { slot, pos, value, priority } => o.with("slot", Json::u(*slot)).with("pos", Json::u(*pos)).with("value", Json::n(*value)).with("priority", Json::n(*priority)),
             Op::RemoveAt { slot, pos } => o.with("slot", Json::u(*slot)).with("pos", Json::u(*pos)),
+            Op::MoveItem { slot, pos, dst, dst_pos, how } => o.with("slot", Json::u(*slot)).with("pos", Json::u(*pos)).with("dst", Json::u(*dst)).with("dst_pos", Json::u(*dst_pos)).with("how", Json::n(*how)),
             Op::SplitMove { src, pos, dst, node_api } => o.with("src", Json::u(*src)).with("pos", Json::u(*pos)).with("dst", Json::u(*dst)).with("node_api", Json::Bool(*node_api)),
             Op::SplitByMove { src, pos, dst, threshold, node_api } => {
                 o.with("src", Json::u(*src)).with("pos", Json::u(*pos)).with("dst", Json::u(*dst)).with("threshold", Json::Bool(*threshold)).with("node_api", Json::Bool(*node_api))
@@ -136,6 +141,7 @@ impl Op {
             "insert_at" => Op::InsertAt { slot: u("slot")?, pos: u("pos")?, value: v("value")? },
             "manual_insert" => Op::ManualInsert { slot: u("slot")?, pos: u("pos")?, value: v("value")?, priority: v("priority")? as u32 },
             "remove_at" => Op::RemoveAt { slot: u("slot")?, pos: u("pos")? },
+            "move_item" => Op::MoveItem { slot: u("slot")?, pos: u("pos")?, dst: u("dst")?, dst_pos: u("dst_pos")?, how: v("how")? as u8 },
             "split_at" => Op::SplitMove { src: u("src")?, pos: u("pos")?, dst: u("dst")?, node_api: b("node_api") },
             "split_by" => Op::SplitByMove { src: u("src")?, pos: u("pos")?, dst: u("dst")?, threshold: b("threshold"), node_api: b("node_api") },
             "merge" => Op::Merge { a: u("a")?, b: u("b")?, node_api: b("node_api") },
@@ -361,6 +367,7 @@ pub const PROBES: &[&str] = &[
     "node_level_api_used",
     "rotation_split_swap",
     "remove_at_checked",
+    "removed_item_reinserted",
     "aggregate_of_split_out_part_checked",
     "three_or_more_live_treaps",
 ];
@@ -463,6 +470,41 @@ fn apply(pool: &mut Pool, op: &Op, st: &mut ExecStats) -> Result<(), (&'static s
             push_probe = "nonidentity_push_in_insert_remove";
             if (got.uid, got.x) != want {
                 return Err(("result", format!("remove_at({}) returned element (uid {}, value {}) but the sequence has (uid {}, value {}) there", p, got.uid, got.x, want.0, want.1)));
+            }
+        }
+        Op::MoveItem { slot, pos, dst, dst_pos, how } => {
+            let (s, d) = (slot % POOL, dst % POOL);
+            if pool.model[s].is_empty() || (s != d && pool.model[d].len() >= 2 * pool.max_len) {
+                return Ok(());
+            }
+            let p = pos % pool.model[s].len();
+            let got = pool.treaps[s].remove_at(p);
+            let want = pool.model[s].remove(p);
+            pool.last_mod[s] = None;
+            pool.last_mod[d] = None;
+            hit(st, "removed_item_reinserted");
+            push_probe = "nonidentity_push_in_insert_remove";
+            let seen = (got.uid, got.x);
+            // the item goes back exactly as remove_at handed it out
+            match how % 3 {
+                0 => {
+                    let q = dst_pos % (pool.model[d].len() + 1);
+                    pool.treaps[d].insert_at(q, got);
+                    pool.model[d].insert(q, want);
+                }
+                1 => {
+                    let cur = take(&mut pool.treaps[d]);
+                    pool.treaps[d] = Treap::merge(cur, Treap::from_item(got));
+                    pool.model[d].push(want);
+                }
+                _ => {
+                    let cur = take(&mut pool.treaps[d]);
+                    pool.treaps[d] = Treap::merge(Treap::from_item(got), cur);
+                    pool.model[d].insert(0, want);
+                }
+            }
+            if seen != want {
+                return Err(("result", format!("remove_at({}) returned element (uid {}, value {}) but the sequence has (uid {}, value {}) there", p, seen.0, seen.1, want.0, want.1)));
             }
         }
         Op::SplitMove { src, pos, dst, node_api } => {
